@@ -5,7 +5,8 @@ import Knut.Model.Table
 
 A `*csv.Writer` created by `csv.NewWriter(w)` (default comma, `UseCRLF = false`) is the text of its sink `w` (an in-memory text, as
 every `io.Writer` of the translated code) and the text that is PENDING in its `bufio.Writer`.  `Write(record)` appends one line to
-the pending text and returns no error (the default comma is valid; the sink does not fail); `Flush()` passes the pending text on.
+the pending text and returns no error (the default comma is valid; the sink does not fail); `Flush()` passes the pending text on;
+`Error()` — the sticky error of the sink — is therefore `none`.
 The line of a record — which fields are quoted, how quotes are doubled — is the hand model's `Knut.Table.csvLine`
 (`Model/Table.lean`), compared with the real `encoding/csv` by the stream `gosemtable` of C11 (`harness/gosem_table.go`).
 
@@ -32,6 +33,11 @@ def Writer.Write (w : Writer) (record : List String) : Writer × Option Error :=
 
 /-- `w.Flush()` -/
 def Writer.Flush (w : Writer) : Writer := ⟨w.sink ++ w.pending, ""⟩
+
+/-- `w.Error()`: the sticky error of the buffered writer — the first error a `Write` or `Flush` met in its sink.  The sink of the
+translated code is an in-memory text that does not fail (so `Write` above returns no error either): there is none.  What the real
+`Render` returns when the sink DOES fail is the business of the stream `fault` of C17. -/
+def Writer.Error (_w : Writer) : Option Error := none
 
 def droppedBeyond : String := "csv.Writer dropped with more than one buffer pending: what reached its sink is outside the reading"
 
